@@ -207,7 +207,6 @@ def w_xcube(cfg, tier):
     n = code.n
     col = hz.Collector(cfg)
     col.encoded(XCubeMatchingDecoder.decode)
-    dec = XCubeMatchingDecoder(code, PauliErrorModel(1 / 3, 1 / 3, 1 / 3), 0.1)
     ZB = {q: z3.Bool(f'z_{q}') for q in window}
     XB = {q: z3.Bool(f'x_{q}') for q in window[:2]}
     eng = Engine(name=cfg, max_paths=200)
@@ -221,6 +220,8 @@ def w_xcube(cfg, tier):
             s = code.measure_syndrome(e)
             keep = s.copy()
             s1 = code.measure_syndrome(np.roll(e, 1))
+            # one decoder object per path: the history is exactly "one earlier call" (and is replayed as such)
+            dec = XCubeMatchingDecoder(code, PauliErrorModel(1 / 3, 1 / 3, 1 / 3), 0.1)
             dec.decode(s1)                       # an earlier call on the same object
             c = np.asarray(dec.decode(s))
             fresh = np.asarray(XCubeMatchingDecoder(code, PauliErrorModel(1 / 3, 1 / 3, 1 / 3), 0.1).decode(keep.copy()))
@@ -268,28 +269,35 @@ def w_realreuse(cfg, tier):
     from panqec.error_models import PauliErrorModel
     parts = cfg.split(' ')
     Dec = getattr(pd_, {'unionfind': 'UnionFindDecoder', 'matching': 'MatchingDecoder',
-                        'bposd': 'BeliefPropagationOSDDecoder'}[parts[1]])
+                        'bposd': 'BeliefPropagationOSDDecoder', 'xcube': 'XCubeMatchingDecoder'}[parts[1]])
     code = common.make_code(parts[2])
     n = code.n
     col = hz.Collector(cfg)
     col.encoded(Dec.decode)
     em = PauliErrorModel(0.2, 0.3, 0.5)
-    firsts = uf_histories(code, k=3 if tier == 'quick' else 8)
+    single = len(parts) > 3 and parts[3] == 'single'      # histories and targets: all single-qubit X / Z errors
+    if single:
+        firsts = [np.eye(2 * n, dtype=np.uint8)[i] for i in range(n if tier == 'quick' else 2 * n)]
+    else:
+        firsts = uf_histories(code, k=3 if tier == 'quick' else 8)
     eng = Engine(name=cfg, max_paths=50000)
     with eng:
         h = eng.integer('history', 0, len(firsts) - 1)
         q1, q2 = eng.integer('q1', 0, n - 1), eng.integer('q2', 0, n - 1)
         l1, l2 = eng.integer('l1', 1, 2), eng.integer('l2', 1, 2)            # 1 = X, 2 = Z
-        eng.assume_base((q1 < q2).t)
+        if not single:
+            eng.assume_base((q1 < q2).t)
         eng.assume_base((l1 == l2).t)         # both errors in one sector (clusters of one sector interact)
         if len(parts) > 3 and parts[3].startswith('h='):
             eng.assume_base((h == int(parts[3][2:])).t)      # one history per configuration (parallelism)
         if tier == 'quick':
             eng.assume_base((l1 == 1).t)
+        if single:
+            eng.assume_base((q2 == 0).t)            # q2 unused: the target is the single error (q1, l1)
 
         def fn():
             e = np.zeros(2 * n, dtype=np.uint8)
-            for q, l in ((int(q1), int(l1)), (int(q2), int(l2))):
+            for q, l in ((int(q1), int(l1)),) if single else ((int(q1), int(l1)), (int(q2), int(l2))):
                 e[q + (n if l == 2 else 0)] = 1
             first = firsts[int(h)]
             s = code.measure_syndrome(e)
@@ -341,7 +349,7 @@ def replay(path):
         bad = False
         if 'second' in w:
             Dec = getattr(pd_, {'unionfind': 'UnionFindDecoder', 'matching': 'MatchingDecoder',
-                                'bposd': 'BeliefPropagationOSDDecoder'}[parts[1]])
+                                'bposd': 'BeliefPropagationOSDDecoder', 'xcube': 'XCubeMatchingDecoder'}[parts[1]])
             code = common.make_code(parts[2])
             em = PauliErrorModel(0.2, 0.3, 0.5)
             s = code.measure_syndrome(np.array(w['second'], dtype=np.uint8))
@@ -376,6 +384,14 @@ def replay(path):
                 dec = Dec(code, PauliErrorModel(1 / 3, 1 / 3, 1 / 3), 0.1)
                 s = code.measure_syndrome(e)
                 keep = s.copy()
+                if 'reused' in oid:
+                    dec.decode(code.measure_syndrome(np.roll(e, 1)))
+                    c1 = np.asarray(dec.decode(s)).astype(int)
+                    c2 = np.asarray(Dec(code, PauliErrorModel(1 / 3, 1 / 3, 1 / 3), 0.1).decode(keep.copy())).astype(int)
+                    if (c1 != c2).any():
+                        print('reused', c1.tolist(), 'fresh', c2.tolist())
+                        bad = True
+                    break
                 dec.decode(s)
                 if (keep != s).any():
                     print('syndrome before', keep.tolist(), 'after decode', s.tolist())
@@ -441,7 +457,7 @@ def configs(tier):
     out = ['matching Toric2DCode(2,2)', 'matching RotatedPlanar2DCode(2,3)', 'bposd RotatedPlanar2DCode(2,2) noupdate',
            'bposd RotatedPlanar2DCode(2,2) update', 'bposd Toric2DCode(2,2)/XY noupdate', 'bposd Planar2DCode(2,2) update']
     out += ['xcubedec XCubeCode(2,2,2) 0,5,13']
-    out += ['realreuse unionfind Toric2DCode(3,3)'] + \
+    out += ['realreuse xcube XCubeCode(2,2,2) single', 'realreuse unionfind Toric2DCode(3,3)'] + \
         (['realreuse unionfind Toric2DCode(3,4)'] + [f'realreuse unionfind Toric2DCode(5,5) h={i}' for i in range(8)] + [ 'realreuse matching RotatedPlanar2DCode(3,3)', 'realreuse bposd Toric2DCode(3,3)/XZZX/x'] if tier != 'quick' else [])
     out += ['sweepdec Toric3DCode(2,2,2) sweep 0,5,13', 'sweepdec Planar3DCode(2,2,2) sweep 0,3,7',
             'sweepdec RotatedPlanar3DCode(2,2,2) sweep 0,2,5', 'sweepdec Toric3DCode(2,2,2) sweepmatch 0,5,13',
